@@ -1719,7 +1719,7 @@ pub fn run(pc: &PropCtx) {
     pc.bound("max_files", serde_json::json!(40));
     pc.bound("ignore_files", serde_json::json!("1..=4"));
     pc.bound("lines_per_ignore_file", serde_json::json!("1..=6"));
-    let cases = pc.tier.pick(1600, 30_000);
+    let cases = pc.tier.pick(3000, 30_000);
     pc.run_tape("git_differential", cases, (64, 700), gen_case, |c| check_budgeted(pc, c));
     for (i, c) in RG_TIMEOUTS.lock().unwrap().iter().enumerate().take(5) {
         pc.note(format!("rg watchdog expiry #{i} (inconclusive, not a violation): {c}"));
